@@ -140,14 +140,20 @@ def stratum_pair(rng, tmp, counters):
         "samples": ["sample%s" % c for c in "ABC"[:nsamp]], "depth": rng.choice([2, 4, 10]), "read_len": (120, 500), "paired": rng.choice([0.0, 0.5]),
         "end_policy": "clean", "error_rate": rng.choice([0.0, 0.02]), "het_prob": 0.8, "unsorted_gt": rng.choice([0.0, 0.4]),
     }
+    more = {}
+    if rng.random() < 0.25:
+        # genotypes that contradict the reads, weak likelihoods: --distrust-genotypes re-genotypes calls (hom -> het with
+        # --include-homozygous), and the new genotype has to be written the same way under both tags
+        p.update({"with_pl": True, "gt_noise": (0.3, 0.0), "depth": 10, "error_rate": 0.0})
+        more = {"distrust_genotypes": True, "include_homozygous": rng.random() < 0.6}
     sim = genome.simulate(rng, tmp, p)
     only_snvs = rng.random() < 0.2
     outs = {}
     viol = []
-    desc = {"stratum": "pair", "params": p, "only_snvs": only_snvs}
+    desc = {"stratum": "pair", "params": p, "only_snvs": only_snvs, "more": more}
     for tag in ("PS", "HP"):
         out = os.path.join(tmp, "out_%s.vcf" % tag)
-        status, trace, msg = pipeline.run_phase(sim, out, reference=sim.fasta, tag=tag, only_snvs=only_snvs)
+        status, trace, msg = pipeline.run_phase(sim, out, reference=sim.fasta, tag=tag, only_snvs=only_snvs, **more)
         if status == "cle":
             return [], False, desc
         if status != "ok":
